@@ -266,8 +266,8 @@ func allocRecycled(al *ssa.Alloc) string {
 }
 
 var o8Except = map[string]string{
-	"tensor.(*Dense).Norm":   "saves and restores its own AP around a temporary reshape; Norm is outside every property",
-	"tensor.(*Dense).Format": "formats the AP by value",
+	"tensor.(*Dense).Norm":     "saves and restores its own AP around a temporary reshape; Norm is outside every property",
+	"tensor.(*Dense).Format":   "formats the AP by value",
 	"tensor.(*Dense).setAP":    "ownership hand-over helper: callers are checked (their argument must be a fresh AP)",
 	"tensor.(*Dense).setOldAP": "ownership hand-over helper: callers are checked (their argument must be a fresh AP)",
 }
